@@ -82,6 +82,14 @@ func (i *Interpreter) SetScope(scope context.Scope) {
 }
 
 func (i *Interpreter) restart() error {
+	// The restart statement checks the limit itself, return(restart) comes here unchecked
+	if i.ctx.Restarts+1 > limitations.MaxVarnishRestarts {
+		return exception.Runtime(
+			nil,
+			"Max restart limit exceeded. Requests are limited to %d restarts",
+			limitations.MaxVarnishRestarts,
+		)
+	}
 	i.ctx.Restarts++
 	i.Debugger.Message(fmt.Sprintf("Restarted (%d) time", i.ctx.Restarts))
 	i.ctx.BackendRequest = nil
